@@ -102,4 +102,5 @@ package signaller
 //@ loop 0: invariant forall j :: 0 <= j && j < len(signalIDs) ==> has(s.signalIDToFeed, signalIDs[j])
 //@ func (s *Signaller) getNonPendingSignalIDs
 //@ ensures forall j :: 0 <= j && j < len(result) ==> has(s.signalIDToFeed, result[j]) && !has(PendingIDs, result[j])
+//@ loop 0: invariant forall j :: 0 <= j && j < len(signalIDs) ==> has(s.signalIDToFeed, signalIDs[j])
 //@ loop 0: invariant forall j :: 0 <= j && j < len(filtered) ==> has(s.signalIDToFeed, filtered[j]) && !has(PendingIDs, filtered[j])
